@@ -43,7 +43,10 @@ ASSUMPTIONS = [
     'quick tier, R1 scope: a file of mesonbuild/ is parsed only if its text spells a protected base name or the identifier of a '
     'function/constant found to yield one (iterated to a fixpoint); the thorough tier parses every file',
 ]
-TECHNIQUE = 'symbolic file-name folding across callees + CFG must-pass (with-exit before replace) + decision table + exception-edge reachability'
+TECHNIQUE = ('who-may-write over file names folded by flow-insensitive def-use (constants, os.path.join/+ shapes, callee return and '
+             'argument-binding summaries; no statement is executed, no branch evaluated) + CFG must-pass/edge reachability (with-exit before '
+             'replace, presence-test edges, exception edges of the lock primitive) + path enumeration of handler bodies + decision table '
+             'over canonical atoms with world enumeration (validate_dirs)')
 
 REFERENCE_PROTECTED = ('coredata.dat', 'cmd_line.txt')    # A.10; cross-checked against the derived reader set on every run
 PRIVATE_DIR = 'meson-private'
